@@ -13,7 +13,11 @@ package harness
 import (
 	"encoding/json"
 	"fmt"
+	"strings"
+	"sync"
+	"sync/atomic"
 	"testing"
+	"time"
 
 	"pgregory.net/rapid"
 )
@@ -157,7 +161,7 @@ func TestC03(t *testing.T) {
 	rec := NewRec("C03", c03Rule)
 	defer rec.Finish(t)
 	rec.EnableJournal()
-	rec.RequireClass("kind_wsclose", "fault_inside_frame", "call_in_window", "double_fault", "kind_fin", "kind_rst", "kind_blackhole", "dir_c2s", "dir_s2c", "window_reached")
+	rec.RequireClass("flapping_under_load", "kind_wsclose", "fault_inside_frame", "call_in_window", "double_fault", "kind_fin", "kind_rst", "kind_blackhole", "dir_c2s", "dir_s2c", "window_reached")
 	sh, nsh := shard()
 
 	run := func(ft failer, c fsCase) {
@@ -197,6 +201,24 @@ func TestC03(t *testing.T) {
 		}
 		v, _ := runC03(c)
 		return v
+	})
+	t.Run("flapping", func(t *testing.T) {
+		if sh != 0 {
+			return
+		}
+		for _, c := range []c03Flap{{Callers: 8, Flap: 3000, ForMs: scale(1500, 8000)}, {Callers: 3, Flap: 1000, ForMs: scale(800, 4000), BigEvery: 3}, {Callers: 12, Flap: 7000, ForMs: scale(1000, 6000), Subs: 3, BigEvery: 5}} {
+			c := c
+			rec.Run(t, c, true, []string{"flapping_under_load"}, func() *Violation {
+				v := runC03Flap(c)
+				if v != nil && v.Key != "foreign-result" && v.Key != "corrupt-result" {
+					if runC03Flap(c) == nil {
+						rec.Class("unconfirmed", 1)
+						return nil
+					}
+				}
+				return v
+			})
+		}
 	})
 	t.Run("grid", func(t *testing.T) {
 		workloads := []string{"w1"}
@@ -266,8 +288,117 @@ func TestC03(t *testing.T) {
 	})
 }
 
+// ---- many faults in quick succession under load ---------------------------------------------------------------
+
+// c03Flap: callers keep issuing calls while the connection is reset every few milliseconds, so that calls land at
+// every instant of the loss / redial / re-established cycle many times over.
+type c03Flap struct {
+	Callers  int `json:"callers"`
+	Flap     int `json:"flap_every_us"` // a reset every so many microseconds
+	ForMs    int `json:"for_ms"`
+	Subs     int `json:"subs,omitempty"`      // callers that subscribe instead (and drain the channel)
+	BigEvery int `json:"big_every,omitempty"` // every n-th call carries a 20 kB request
+}
+
+func runC03Flap(c c03Flap) *Violation {
+	rig, err := NewRig(RigOpts{BackoffMin: time.Millisecond, BackoffMax: 3 * time.Millisecond})
+	if err != nil {
+		return nil
+	}
+	defer rig.Close()
+	cl, err := rig.NewClient("c")
+	if err != nil {
+		return nil
+	}
+	rig.Proxy.KeepLog(false)
+	stop := make(chan struct{})
+	var mu sync.Mutex
+	current := map[int]*Pending{}
+	var foreign *Violation
+	var issued, redials int64
+	var wg sync.WaitGroup
+	for g := 0; g < c.Callers; g++ {
+		wg.Add(1)
+		go func(g int) {
+			defer wg.Done()
+			for n := 0; ; n++ {
+				select {
+				case <-stop:
+					return
+				default:
+				}
+				kind, plan := "call", Plan{}
+				if g < c.Subs {
+					kind, plan = "sub", Plan{N: 3, Early: 1}
+				} else if c.BigEvery > 0 && n%c.BigEvery == 0 {
+					plan.Junk = strings.Repeat("j", 20000)
+				}
+				p := rig.Go(cl, kind, rig.Tok(fmt.Sprintf("fl%d", g)), plan)
+				atomic.AddInt64(&issued, 1)
+				mu.Lock()
+				current[g] = p
+				mu.Unlock()
+				<-p.Done // a call that never returns keeps its caller here: that is what the check looks for afterwards
+				if p.Err == nil {
+					if kind == "sub" {
+						for range p.Ch {
+						}
+					} else if v := p.CheckOwn(); v != nil {
+						mu.Lock()
+						foreign = v
+						mu.Unlock()
+					}
+				}
+			}
+		}(g)
+	}
+	end := time.Now().Add(time.Duration(c.ForMs) * time.Millisecond)
+	for time.Now().Before(end) {
+		time.Sleep(time.Duration(c.Flap) * time.Microsecond)
+		rig.Proxy.CutAll("rst")
+		atomic.AddInt64(&redials, 1)
+	}
+	// the path is left alone now: the client must come back, and every caller's call must have returned
+	healed := false
+	var last error
+	for deadline := time.Now().Add(6 * time.Second); time.Now().Before(deadline); time.Sleep(5 * time.Millisecond) {
+		if last = rig.Probe(cl, time.Second); last == nil {
+			healed = true
+			break
+		}
+	}
+	close(stop)
+	if !healed {
+		return violf("never-healed", "%d callers kept calling while the connection was reset every %d us for %d ms (%d calls, %d resets); afterwards the path was left alone, but no probe succeeded within 6s (last: %v)", c.Callers, c.Flap, c.ForMs, atomic.LoadInt64(&issued), atomic.LoadInt64(&redials), last)
+	}
+	for i := 0; i < 2; i++ {
+		if err := rig.Probe(cl, 3*time.Second); err != nil {
+			return violf("never-healed", "a probe failed after the client had come back: %v", err)
+		}
+	}
+	if !bounded(3*time.Second, wg.Wait) {
+		mu.Lock()
+		defer mu.Unlock()
+		for g, p := range current {
+			if !p.Returned() && rig.W.Running(p.Tok) == false {
+				return violf("call-lost", "caller %d's call %s (%s) never returned although three later probes round-tripped: no handler is running for it (%d callers, a reset every %d us for %d ms, %d calls, %d resets)", g, p.Tok, p.Kind, c.Callers, c.Flap, c.ForMs, atomic.LoadInt64(&issued), atomic.LoadInt64(&redials))
+			}
+		}
+	}
+	mu.Lock()
+	defer mu.Unlock()
+	return foreign
+}
+
 func TestC03Replay(t *testing.T) {
 	Replay(t, "C03", 10, func(raw json.RawMessage) *Violation {
+		var probe map[string]json.RawMessage
+		_ = json.Unmarshal(raw, &probe)
+		if _, ok := probe["flap_every_us"]; ok {
+			var c c03Flap
+			_ = json.Unmarshal(raw, &c)
+			return runC03Flap(c)
+		}
 		c, ok := parseFsCase(raw)
 		if !ok {
 			return nil
